@@ -115,6 +115,30 @@ def _is_save_call(c, sn):
     return isinstance(c.func.value, ast.Name) and c.func.value.id == sn and c.func.attr in ('_AbstractSolver__save_state', '__save_state', 'SaveSolver')
 
 
+_MSW = {}
+
+
+def _method_state_writes(ctx, base, name, state, depth=2):
+    """iteration state written by self.<name>() in any solver class (all overrides), following self-calls `depth` levels"""
+    key = (name, depth)
+    if key in _MSW and _MSW[key][0] is ctx.model:
+        return _MSW[key][1]
+    out = set()
+    for m in ctx.model.overriders(base, name):
+        sn = selfname_of(m)
+        for a, kind, node in attr_writes(m.node, sn):
+            if a in state or a.split('__')[-1] in ('internals',):
+                out.add(a)
+        if calls_where(m.node, lambda c: self_call(c, '_stepmon', sn), include_lambda=False):
+            out.add('_stepmon')
+        if depth > 0:
+            for c in calls_where(m.node, lambda c: isinstance(c.func, ast.Attribute) and isinstance(c.func.value, ast.Name) and c.func.value.id == sn, include_lambda=False):
+                if c.func.attr not in (name, '_stepmon') and not _is_save_call(c, sn):
+                    out |= _method_state_writes(ctx, base, c.func.attr, state, depth - 1)
+    _MSW[key] = (ctx.model, out)
+    return out
+
+
 @rule('C06.c', min_instances=7)
 def checkpoint_only_at_quiescent_point(ctx):
     """on every path of _Step/Finalize/Step/_Solve no store to iteration state follows the last checkpoint call"""
@@ -162,6 +186,11 @@ def checkpoint_only_at_quiescent_point(ctx):
                      if (a in state or a.split('__')[-1] in ('internals',))]
                 if calls_where(st, lambda c: self_call(c, '_stepmon', sn), include_lambda=False):
                     w.append(('_stepmon', 'record'))
+                # methods called on self after the last checkpoint count with everything they (or any override) write
+                for c in calls_where(st, lambda c: isinstance(c.func, ast.Attribute) and isinstance(c.func.value, ast.Name) and c.func.value.id == sn
+                                     and not _is_save_call(c, sn) and c.func.attr != '_stepmon', include_lambda=False):
+                    for a in sorted(_method_state_writes(ctx, base, c.func.attr, state)):
+                        w.append((a, 'via self.%s()' % c.func.attr))
                 if w:
                     bad = (st, w, p)
                     break
